@@ -44,6 +44,17 @@ Theorem C11_positional :
 Proof. exact do_multi_cache_positional. Qed.
 Print Assumptions C11_positional.
 
+(** [expected] unfolded for the plain case: a miss that the server accepts is answered with the server's reply
+    to exactly that command - so [C11_positional] reads "result i = reply_of (cmd i)" *)
+Theorem C11_expected_miss :
+  forall lookup srv qerr optin skip it,
+    not_tx (it_argv it) ->
+    lookup (fst (cache_key (it_argv it))) (snd (cache_key (it_argv it))) = LMiss ->
+    qerr (it_argv it) = None -> qerr (pttl_cmd (it_argv it)) = None ->
+    expected lookup srv qerr optin skip it = Ok (new_result (srv (it_argv it))).
+Proof. exact expected_miss_is_server_reply. Qed.
+Print Assumptions C11_expected_miss.
+
 (** the same by index *)
 Theorem C11_positional_nth :
   forall lookup srv qerr optin use_lru batch,
@@ -219,3 +230,34 @@ Example C11_nonvacuous_mget :
 Proof. vm_compute. reflexivity. Qed.
 
 (** askingMultiCache answers its commands in order (what one command alone is answered after ASKING) *)
+
+(** four wires, slots taken from the key's first byte: every reply sits at its command's position *)
+Example C11_nonvacuous_mux :
+  mux_do_multi_cache (fun _ items => do_multi_cache nv_lookup nv_srv (fun _ => None) true true items) 4
+                     (fun it => match nth 1 (it_argv it) [] with c :: _ => c | [] => 0%N end)
+                     [0; 1; 2; 3]%N nv_batch
+  = Ok (map new_result [nv_val "GETa"; nv_val "hit"; nv_val "GETa"; nv_val "waited"; nv_val "GETb"; nv_val "waited";
+                        nv_val "GETb"; nv_val "hit"]).
+Proof. vm_compute. reflexivity. Qed.
+
+(** two connections; connection 0 rejects key "b" with -MOVED (inside MULTI: EXECABORT), the second round asks
+    connection 1; key "c" is in migration: -ASK, answered by connection 1 after ASKING *)
+Definition nv_conn_of (it : item) : option N := Some 0%N.
+Definition nv_qerr (c : N) (a : argv) : option msg :=
+  if N.eqb c 0 then
+    if bytes_eqb (nth 1 a []) (bs "b") then Some (errmsg "MOVED 1 n1")
+    else if bytes_eqb (nth 1 a []) (bs "c") then Some (errmsg "ASK 2 n1") else None
+  else None.
+Definition nv_redirect (r : rres) : redirect :=
+  match res_error r with
+  | Some (ERedis t) => if bytes_eqb t (bs "MOVED 1 n1") then RMoved 1 else if bytes_eqb t (bs "ASK 2 n1") then RAsk 1 else RNone
+  | _ => RNone
+  end.
+
+Example C11_nonvacuous_cluster :
+  cluster_do_multi_cache nv_conn_of
+    (fun c items => do_multi_cache nv_lookup nv_srv (nv_qerr c) true true items)
+    (fun c items => asking_multi_cache nv_srv (nv_qerr c) true items)
+    nv_redirect 8 [] 0 [nv_get "a"; nv_get "b"; nv_get "c"; nv_get "h"; nv_get "b"]
+  = Ok (inl (map new_result [nv_val "GETa"; nv_val "GETb"; nv_val "GETc"; nv_val "hit"; nv_val "GETb"])).
+Proof. vm_compute. reflexivity. Qed.
